@@ -3,7 +3,7 @@ import ast
 import re
 
 from .absint import Domain, Interp, NORMAL, RETURN, RAISE, is_raise
-from .astutil import method_call, unparse, parent, in_subtree, is_self_call, keytext, oriented
+from .astutil import method_call, unparse, parent, in_subtree, is_self_call, keytext, oriented, flat
 from .index import dotted, walk_local
 from .linear import linform, same, show
 from .loader import AnalysisError
@@ -128,20 +128,20 @@ def writer_layout(run, f):
 def reader_slices(run, f):
     """In pick(): for each branch (b2 / b64) the header slices gram[L:U] as linear forms over the size symbols."""
     # the encoding flag is whichever local receives self.wiff(gram)
-    flags = {t.id for n in f.node.body if isinstance(n, ast.Assign) and isinstance(n.value, ast.Call) and is_self_call(n.value, "wiff")
+    flags = {t.id for n in flat(f.node.body) if isinstance(n, ast.Assign) and isinstance(n.value, ast.Call) and is_self_call(n.value, "wiff")
              for t in n.targets if isinstance(t, ast.Name)}
-    top = [n for n in f.node.body if isinstance(n, ast.If) and dotted(n.test) in flags]
+    top = [n for n in flat(f.node.body) if isinstance(n, ast.If) and dotted(n.test) in flags]
     if not top:
         raise AnalysisError("pick(): `if curt` branch not found")
     out = []
     for branch, body in (("b2", top[0].body), ("b64", top[0].orelse)):
         # the five size locals are named by position of the unpacking of self.Sizes[code] (bz nz mz vz az), whatever they are called
         ren = {}
-        for st in body:
+        for st in flat(body):
             if isinstance(st, ast.Assign) and isinstance(st.targets[0], ast.Tuple) and len(st.targets[0].elts) == 5 and "Sizes[" in unparse(st.value):
                 ren = {t.id: canon for t, canon in zip(st.targets[0].elts, SIZES) if isinstance(t, ast.Name)}
         ozname = None
-        for st in body:
+        for st in flat(body):
             if isinstance(st, ast.Assign) and isinstance(st.targets[0], ast.Name) and isinstance(st.value, ast.BinOp):
                 lf = linform(st.value)
                 if lf and set(lf) == set(ren) and all(v == 1 for v in lf.values()):
@@ -160,7 +160,7 @@ def reader_slices(run, f):
                     lo, hi = canon(linform(n.slice.lower)), canon(linform(n.slice.upper))
                     rows.append((lo, hi, n))
         scaled = set()
-        for st in body:
+        for st in flat(body):
             if isinstance(st, ast.Assign) and isinstance(st.targets[0], ast.Name) and st.targets[0].id in ren and ren[st.targets[0].id] in SIZES:
                 t = unparse(st.value).replace(" ", "")
                 if t == "3*%s//4" % st.targets[0].id:
@@ -181,7 +181,7 @@ def layout_facts(run):
         facts.append(("writer-order:%s" % branch, ok, run.site(rend),
                       "" if ok else "rend() concatenates the %s gram as %s; the reader's offsets assume %s" % (branch, order, want)))
     # writer: in the base-2 branch every overhead total that later sizes a gram body is scaled like the header parts
-    curt = [n for n in rend.node.body if isinstance(n, ast.If) and dotted(n.test) == "self.curt"]
+    curt = [n for n in flat(rend.node.body) if isinstance(n, ast.If) and dotted(n.test) == "self.curt"]
     scaled = set()
     for n in curt[:1]:
         for st in n.body:
